@@ -1,6 +1,7 @@
 import PymocaVerif.Lemmas.ExprGrammar
 import PymocaVerif.Lemmas.ExprLiterals
 import PymocaVerif.Lemmas.ExprSpec
+import PymocaVerif.Lemmas.ExprSpecSound
 import PymocaVerif.Generated.ExprTable
 /-!
 # C03 — parsed expressions follow Modelica precedence and literal values
@@ -132,6 +133,22 @@ theorem agrees_with_specification {V : Type} (I : Interp V) (hI : I.SignLaw) (e 
   · exact Nat.le_trans (Nat.le_max_left _ _) hf
   · exact Nat.le_trans (Nat.le_max_right _ _) hf
   · rw [eval_expected I hI, eval_strip]
+
+/-- **The property for every text of the specification's expression grammar** (no printer in the statement):
+whenever the specification's grammar derives a token string `ts` and reads it as `s`, pymoca's parser (extracted
+table) accepts `ts` too and its tree has the value of `s`. -/
+theorem every_text {V : Type} (I : Interp V) (hI : I.SignLaw) (ts : List Tok) (f : Nat) (s : E)
+    (h : specParse f ts = some s) :
+    ∃ fuel, ∀ f', fuel ≤ f' → ∃ t, parseTop (Tbl.ofData exprTable) f' ts = some t ∧ eval I t = eval I s := by
+  obtain ⟨c, hc, hts⟩ := spec_text_is_print h
+  obtain ⟨f0, h0⟩ := parse_mprint c
+  refine ⟨f0, fun f' hf' => ⟨expected c, ?_, ?_⟩⟩
+  · rw [← hts]; exact h0 f' hf'
+  · rw [eval_expected I hI, ← hc, eval_strip]
+
+/-- `- a / b * c`: the specification reads `-((a / b) * c)` -/
+example : specParse 30 [.op .minus, .atom (.ref "a"), .op .slash, .atom (.ref "b"), .op .star, .atom (.ref "c")]
+    = some (.pre .neg (.bin .mul (.bin .div (.atom (.ref "a")) (.atom (.ref "b"))) (.atom (.ref "c")))) := by rfl
 
 /-- Parenthesisation is irrelevant: two trees that differ only in redundant parentheses give trees of the same
 value. -/
